@@ -1,8 +1,8 @@
 import Spydr.IR.Props.C10
 open Spydr.Names
 #print axioms Spydr.Names.init_nsinv
-#print axioms Spydr.Names.step_nsinv_partial
-#print axioms Spydr.Names.run_nsinv_uniform
+#print axioms Spydr.Names.step_nsinv
+#print axioms Spydr.Names.run_nsinv
 #print axioms Spydr.Names.run_nsinv_both_policies
 #print axioms Spydr.Names.names_unique
 #print axioms Spydr.Names.idents_unique_ci
@@ -11,3 +11,5 @@ open Spydr.Names
 #print axioms Spydr.Names.rename_refused_iff
 #print axioms Spydr.Names.dropNs_nsinv
 #print axioms Spydr.Names.register_nsinv
+#print axioms Spydr.Names.applyNs_nsinv
+#print axioms Spydr.Names.attach_nsinv
